@@ -146,4 +146,10 @@ def make(rng, i, force_trait=None):
         src = "#[derive(Educe)]\n%s\nenum G%d%s%s { %sA%s%s }" % (attrs, i, generics, w, vattr, body, "" if main in ("Deref", "Into") else ", B")
         if main == "Default" and any(fattrs):
             src = src.replace("#[educe(Default(expression = m()))]", "")
-    return src, {"trait": trait, "mode": mode, "kind": kind, "lifetimes": len(lifetimes), "type_params": n_ty, "consts": len(consts), "where": len(where)}
+    # now and then the type is called like a segment of one of its own field types (`struct PhantomData<T>(core::marker::
+    # PhantomData<T>)`): the field type mentions the identifier of the type without referring to it
+    self_named = 0
+    if any("core::marker::PhantomData<" in f for f in fields) and rng.random() < 0.3:
+        src = src.replace(" G%d<" % i, " PhantomData<", 1)
+        self_named = 1
+    return src, {"self_named": self_named, "trait": trait, "mode": mode, "kind": kind, "lifetimes": len(lifetimes), "type_params": n_ty, "consts": len(consts), "where": len(where)}
